@@ -151,12 +151,15 @@ Proofs/Db.vos Proofs/Db.vok Proofs/Db.required_vos: Proofs/Db.v Model/Term.vos M
 Proofs/Compile.vo Proofs/Compile.glob Proofs/Compile.v.beautified Proofs/Compile.required_vo: Proofs/Compile.v Model/Term.vo Model/Unify.vo Model/Clause.vo
 Proofs/Compile.vio: Proofs/Compile.v Model/Term.vio Model/Unify.vio Model/Clause.vio
 Proofs/Compile.vos Proofs/Compile.vok Proofs/Compile.required_vos: Proofs/Compile.v Model/Term.vos Model/Unify.vos Model/Clause.vos
+Proofs/HeadExec.vo Proofs/HeadExec.glob Proofs/HeadExec.v.beautified Proofs/HeadExec.required_vo: Proofs/HeadExec.v Model/Term.vo Model/Unify.vo Model/Clause.vo Model/Machine.vo Proofs/Unify.vo Proofs/UnifySound.vo Proofs/Compile.vo
+Proofs/HeadExec.vio: Proofs/HeadExec.v Model/Term.vio Model/Unify.vio Model/Clause.vio Model/Machine.vio Proofs/Unify.vio Proofs/UnifySound.vio Proofs/Compile.vio
+Proofs/HeadExec.vos Proofs/HeadExec.vok Proofs/HeadExec.required_vos: Proofs/HeadExec.v Model/Term.vos Model/Unify.vos Model/Clause.vos Model/Machine.vos Proofs/Unify.vos Proofs/UnifySound.vos Proofs/Compile.vos
 Props/C09.vo Props/C09.glob Props/C09.v.beautified Props/C09.required_vo: Props/C09.v Model/Term.vo Model/Unify.vo Model/Clause.vo Model/Machine.vo Proofs/Db.vo Model/Boot.vo
 Props/C09.vio: Props/C09.v Model/Term.vio Model/Unify.vio Model/Clause.vio Model/Machine.vio Proofs/Db.vio Model/Boot.vio
 Props/C09.vos Props/C09.vok Props/C09.required_vos: Props/C09.v Model/Term.vos Model/Unify.vos Model/Clause.vos Model/Machine.vos Proofs/Db.vos Model/Boot.vos
-Props/C10.vo Props/C10.glob Props/C10.v.beautified Props/C10.required_vo: Props/C10.v Model/Term.vo Model/Unify.vo Model/Clause.vo Model/Machine.vo Proofs/Compile.vo
-Props/C10.vio: Props/C10.v Model/Term.vio Model/Unify.vio Model/Clause.vio Model/Machine.vio Proofs/Compile.vio
-Props/C10.vos Props/C10.vok Props/C10.required_vos: Props/C10.v Model/Term.vos Model/Unify.vos Model/Clause.vos Model/Machine.vos Proofs/Compile.vos
+Props/C10.vo Props/C10.glob Props/C10.v.beautified Props/C10.required_vo: Props/C10.v Model/Term.vo Model/Unify.vo Model/Clause.vo Model/Machine.vo Proofs/Compile.vo Proofs/Unify.vo Proofs/HeadExec.vo
+Props/C10.vio: Props/C10.v Model/Term.vio Model/Unify.vio Model/Clause.vio Model/Machine.vio Proofs/Compile.vio Proofs/Unify.vio Proofs/HeadExec.vio
+Props/C10.vos Props/C10.vok Props/C10.required_vos: Props/C10.v Model/Term.vos Model/Unify.vos Model/Clause.vos Model/Machine.vos Proofs/Compile.vos Proofs/Unify.vos Proofs/HeadExec.vos
 Proofs/Cancel.vo Proofs/Cancel.glob Proofs/Cancel.v.beautified Proofs/Cancel.required_vo: Proofs/Cancel.v Model/Term.vo Model/Unify.vo Model/Clause.vo Model/Machine.vo Proofs/Promise.vo Proofs/Trampoline.vo
 Proofs/Cancel.vio: Proofs/Cancel.v Model/Term.vio Model/Unify.vio Model/Clause.vio Model/Machine.vio Proofs/Promise.vio Proofs/Trampoline.vio
 Proofs/Cancel.vos Proofs/Cancel.vok Proofs/Cancel.required_vos: Proofs/Cancel.v Model/Term.vos Model/Unify.vos Model/Clause.vos Model/Machine.vos Proofs/Promise.vos Proofs/Trampoline.vos
@@ -169,9 +172,9 @@ Proofs/Unify.vos Proofs/Unify.vok Proofs/Unify.required_vos: Proofs/Unify.v Mode
 Proofs/UnifySound.vo Proofs/UnifySound.glob Proofs/UnifySound.v.beautified Proofs/UnifySound.required_vo: Proofs/UnifySound.v Model/Term.vo Model/Unify.vo Proofs/Unify.vo
 Proofs/UnifySound.vio: Proofs/UnifySound.v Model/Term.vio Model/Unify.vio Proofs/Unify.vio
 Proofs/UnifySound.vos Proofs/UnifySound.vok Proofs/UnifySound.required_vos: Proofs/UnifySound.v Model/Term.vos Model/Unify.vos Proofs/Unify.vos
-Props/C02.vo Props/C02.glob Props/C02.v.beautified Props/C02.required_vo: Props/C02.v Model/Term.vo Model/Unify.vo Proofs/Unify.vo Proofs/UnifySound.vo
-Props/C02.vio: Props/C02.v Model/Term.vio Model/Unify.vio Proofs/Unify.vio Proofs/UnifySound.vio
-Props/C02.vos Props/C02.vok Props/C02.required_vos: Props/C02.v Model/Term.vos Model/Unify.vos Proofs/Unify.vos Proofs/UnifySound.vos
+Props/C02.vo Props/C02.glob Props/C02.v.beautified Props/C02.required_vo: Props/C02.v Model/Term.vo Model/Unify.vo Proofs/Unify.vo Proofs/UnifySound.vo Model/Clause.vo Proofs/HeadExec.vo
+Props/C02.vio: Props/C02.v Model/Term.vio Model/Unify.vio Proofs/Unify.vio Proofs/UnifySound.vio Model/Clause.vio Proofs/HeadExec.vio
+Props/C02.vos Props/C02.vok Props/C02.required_vos: Props/C02.v Model/Term.vos Model/Unify.vos Proofs/Unify.vos Proofs/UnifySound.vos Model/Clause.vos Proofs/HeadExec.vos
 Proofs/Order.vo Proofs/Order.glob Proofs/Order.v.beautified Proofs/Order.required_vo: Proofs/Order.v Model/Term.vo Model/Unify.vo Model/Order.vo
 Proofs/Order.vio: Proofs/Order.v Model/Term.vio Model/Unify.vio Model/Order.vio
 Proofs/Order.vos Proofs/Order.vok Proofs/Order.required_vos: Proofs/Order.v Model/Term.vos Model/Unify.vos Model/Order.vos
